@@ -12,11 +12,17 @@ Theorems here:
   * `cfg_agree_arith`: the two configurations of the reference coincide on every operator application
     except a division or modulo by zero — the one documented point where the engines are allowed to
     differ (total on the VM, a fault natively);
-  * the compiler theorems of `Props/Compile*.lean` (growing fragment): running the bytecode the generator
-    emits on the VM model yields the reference observation.
+  * `compile_expr_correct` (helper lemmas in `Lemmas/VmExec.lean`, `Lemmas/CompileExpr.lean`): for every
+    expression of the pure fragment (integer and boolean literals, local and global variables, unary minus
+    and `not`, the eleven strict binary operators, short-circuit `and` / `or`, any nesting), running the
+    bytes the generator emits - decoded instruction by instruction by the VM model's own dispatch loop -
+    pushes exactly the value the reference semantics computes and changes nothing else;
+    `compile_expr_correct_native` carries this to the reference's native configuration.
 -/
 import NanoVerif.Model.Sem
 import NanoVerif.Model.Compile
+import NanoVerif.Lemmas.CompileExpr
+import NanoVerif.Lemmas.CompileExprExample
 
 namespace NanoVerif.C01
 open NanoVerif Gen
@@ -41,5 +47,145 @@ theorem vm_never_divZero (op : TT) (a b : Sem.SVal) : Sem.binArith Sem.vmCfg op 
 
 example : Sem.binArith Sem.nativeCfg .T_SLASH (.int 7) (.int 0) = .error .divZero := by simp [Sem.binArith, Sem.nativeCfg]
 example : Sem.binArith Sem.vmCfg .T_SLASH (.int 7) (.int 0) = .ok (.int 0) := by simp [Sem.binArith, Sem.vmCfg]
+
+/-- **compile_expr_correct** (VM back end, pure expression fragment).  Let `e` be an expression of the
+    fragment, `code` what `compile_expr` emits for it and `bs` its encoding, lying at the instruction pointer
+    inside the current function of any module `m`; let the reference semantics evaluate `e` to `w` in an
+    environment the machine state represents (`EnvOK`: each visible variable is a scalar stored in the slot
+    the generator resolves its name to).  Then the VM's dispatch loop, started in that state, reaches after
+    finitely many instructions the state that differs only by the instruction pointer having moved past the
+    code and one more stack entry, the representation of `w`; heap, output, globals and frames are unchanged,
+    and the reference's state is unchanged too.  No bound on the size or nesting of `e`. -/
+theorem compile_expr_correct (m : Module) (ce : CE) (p : Program) (e : Expr) (hp : PureE e)
+    (cs cs' : CS) (code : List PI) (bs : Bytes) (fuel : Nat) (loc : Sem.Locals) (g g' : Sem.GState) (w : Sem.SVal)
+    (s : VmState) (fr : Frame) (frs : List Frame)
+    (hc : cExpr ce cs e = .ok (cs', code)) (hb : encodeAll code = some bs)
+    (hs : Sem.evalExpr Sem.vmCfg p fuel loc g e = .ok (w, g'))
+    (hfr : s.frames = fr :: frs) (hat : CodeAt m s.curFn s.ip bs)
+    (henv : EnvOK ce cs loc g fr.stackBase s.stack s.globals) :
+    g' = g ∧ ∃ v n, VRel w v ∧
+      ∀ k, runLoop m (n + k) s = runLoop m k (advS s (s.ip + bs.length) (s.stack ++ [v])) := by
+  obtain ⟨_, hg, v, n, hv, hrun⟩ := cExpr_sim m ce p e hp cs cs' code fuel loc g g' w s fr frs bs hc hs hfr hb hat henv
+  exact ⟨hg, v, n, hv, fun k => runLoop_of_runN m n k s _ hrun⟩
+
+/-- on the fragment, whatever the native configuration of the reference computes, the VM configuration
+    computes too (they differ only where the native one faults on a zero divisor) -/
+theorem native_ok_implies_vm (p : Program) (e : Expr) (hp : PureE e) :
+    ∀ (fuel : Nat) (loc : Sem.Locals) (g : Sem.GState) (r : Sem.SVal × Sem.GState),
+      Sem.evalExpr Sem.nativeCfg p fuel loc g e = .ok r → Sem.evalExpr Sem.vmCfg p fuel loc g e = .ok r := by
+  induction hp with
+  | num v => intro fuel loc g r h; cases fuel <;> simpa [Sem.evalExpr] using h
+  | bool b => intro fuel loc g r h; cases fuel <;> simpa [Sem.evalExpr] using h
+  | ident x => intro fuel loc g r h; cases fuel <;> simpa [Sem.evalExpr] using h
+  | neg a _ ih =>
+    intro fuel loc g r h
+    cases fuel with
+    | zero => simp [Sem.evalExpr] at h
+    | succ f =>
+      simp only [Sem.evalExpr] at h ⊢
+      cases ha : Sem.evalExpr Sem.nativeCfg p f loc g a with
+      | error er => simp [ha] at h
+      | ok ra => rw [ih f loc g ra ha]; simpa [ha] using h
+  | not a _ ih =>
+    intro fuel loc g r h
+    cases fuel with
+    | zero => simp [Sem.evalExpr] at h
+    | succ f =>
+      simp only [Sem.evalExpr] at h ⊢
+      cases ha : Sem.evalExpr Sem.nativeCfg p f loc g a with
+      | error er => simp [ha] at h
+      | ok ra => rw [ih f loc g ra ha]; simpa [ha] using h
+  | strict op o a b ho _ _ iha ihb =>
+    intro fuel loc g r h
+    cases fuel with
+    | zero => simp [Sem.evalExpr] at h
+    | succ f =>
+      obtain ⟨hna, hno⟩ := binOpc_not_logic op o ho
+      simp only [Sem.evalExpr, hna, hno, Bool.false_eq_true, if_false] at h ⊢
+      cases ha : Sem.evalExpr Sem.nativeCfg p f loc g a with
+      | error er => simp [ha] at h
+      | ok ra =>
+        obtain ⟨wa, g1⟩ := ra
+        rw [iha f loc g _ ha]
+        simp only [ha] at h ⊢
+        cases hb : Sem.evalExpr Sem.nativeCfg p f loc g1 b with
+        | error er => simp [hb] at h
+        | ok rb =>
+          obtain ⟨wb, g2⟩ := rb
+          rw [ihb f loc g1 _ hb]
+          simp only [hb] at h ⊢
+          cases hbin : Sem.binArith Sem.nativeCfg op wa wb with
+          | error er => simp [hbin] at h
+          | ok v =>
+            have := cfg_agree_arith op wa wb (by rw [hbin]; simp)
+            rw [this, hbin]
+            simpa [hbin] using h
+  | and a b _ _ iha ihb =>
+    intro fuel loc g r h
+    cases fuel with
+    | zero => simp [Sem.evalExpr] at h
+    | succ f =>
+      simp only [Sem.evalExpr, beq_self_eq_true, if_true] at h ⊢
+      cases ha : Sem.evalExpr Sem.nativeCfg p f loc g a with
+      | error er => simp [ha] at h
+      | ok ra =>
+        rw [iha f loc g ra ha]
+        simp only [ha] at h
+        obtain ⟨wa, g1⟩ := ra
+        cases wa with
+        | bool x =>
+          cases x with
+          | false => simpa using h
+          | true =>
+            simp only at h ⊢
+            cases hb : Sem.evalExpr Sem.nativeCfg p f loc g1 b with
+            | error er => simp [hb] at h
+            | ok rb => rw [ihb f loc g1 rb hb]; simpa [hb] using h
+        | _ => simp at h
+  | or a b _ _ iha ihb =>
+    intro fuel loc g r h
+    cases fuel with
+    | zero => simp [Sem.evalExpr] at h
+    | succ f =>
+      have hne : (TT.T_OR == TT.T_AND) = false := rfl
+      simp only [Sem.evalExpr, hne, beq_self_eq_true, if_true, Bool.false_eq_true, if_false] at h ⊢
+      cases ha : Sem.evalExpr Sem.nativeCfg p f loc g a with
+      | error er => simp [ha] at h
+      | ok ra =>
+        rw [iha f loc g ra ha]
+        simp only [ha] at h
+        obtain ⟨wa, g1⟩ := ra
+        cases wa with
+        | bool x =>
+          cases x with
+          | true => simpa using h
+          | false =>
+            simp only at h ⊢
+            cases hb : Sem.evalExpr Sem.nativeCfg p f loc g1 b with
+            | error er => simp [hb] at h
+            | ok rb => rw [ihb f loc g1 rb hb]; simpa [hb] using h
+        | _ => simp at h
+
+/-- **both back ends, model level**: if the reference in its *native* configuration evaluates an expression
+    of the fragment to `w`, then the VM running the generated code pushes the representation of `w` -/
+theorem compile_expr_correct_native (m : Module) (ce : CE) (p : Program) (e : Expr) (hp : PureE e)
+    (cs cs' : CS) (code : List PI) (bs : Bytes) (fuel : Nat) (loc : Sem.Locals) (g g' : Sem.GState) (w : Sem.SVal)
+    (s : VmState) (fr : Frame) (frs : List Frame)
+    (hc : cExpr ce cs e = .ok (cs', code)) (hb : encodeAll code = some bs)
+    (hs : Sem.evalExpr Sem.nativeCfg p fuel loc g e = .ok (w, g'))
+    (hfr : s.frames = fr :: frs) (hat : CodeAt m s.curFn s.ip bs)
+    (henv : EnvOK ce cs loc g fr.stackBase s.stack s.globals) :
+    g' = g ∧ ∃ v n, VRel w v ∧
+      ∀ k, runLoop m (n + k) s = runLoop m k (advS s (s.ip + bs.length) (s.stack ++ [v])) :=
+  compile_expr_correct m ce p e hp cs cs' code bs fuel loc g g' w s fr frs hc hb
+    (native_ok_implies_vm p e hp fuel loc g (w, g') hs) hfr hat henv
+
+open CompileEx in
+/-- non-vacuity: the hypotheses hold for a concrete module, machine state and environment, and the theorem
+    yields the run of the VM on `(and (< 1 x) (== (* x 3) 15))` with x = 5 -/
+example : ∃ v n, VRel (.bool true) v ∧ ∀ k, runLoop exM (n + k) exS = runLoop exM k (advS exS 49 ([.int 5] ++ [v])) :=
+  (compile_expr_correct_native exM {} [] exE
+    (.and _ _ (.strict .T_LT .LT _ _ rfl (.num 1) (.ident "x")) (.strict .T_EQ .EQ _ _ rfl (.strict .T_STAR .MUL _ _ rfl (.ident "x") (.num 3)) (.num 15)))
+    exCs exCs exCode exBytes 10 exLoc {} {} (.bool true) exS _ [] exCompile exEncode exSem rfl exAt exEnv).2
 
 end NanoVerif.C01
